@@ -148,6 +148,7 @@ class _ParseTreeProcessor(parsimonious.NodeVisitor):
         assert isinstance(statement_stream_processor, StatementStreamProcessor)
         self._statement_stream_processor = statement_stream_processor  # type: StatementStreamProcessor
         self._current_line_number = 1  # Lines are numbered from one
+        self._line_breaks_within_line = 0  # A string literal may span several physical lines
         self._comment = ""
         self._comment_is_header = True
         self._pending_attribute_line_number = None  # type: typing.Optional[int]
@@ -187,7 +188,9 @@ class _ParseTreeProcessor(parsimonious.NodeVisitor):
             self._flush_comment()
 
     def visit_end_of_line(self, _n: _Node, _c: _Children) -> None:
-        self._current_line_number += 1
+        # A statement is reported at its first line; the lines it continued over count for what follows it.
+        self._current_line_number += 1 + self._line_breaks_within_line
+        self._line_breaks_within_line = 0
 
     def visit_definition(self, _n: _Node, _c: _Children) -> None:
         # The trailing end-of-line is optional, so the last line may be a statement or a comment rather than an
@@ -461,9 +464,11 @@ class _ParseTreeProcessor(parsimonious.NodeVisitor):
         return _expression.Boolean(False)
 
     def visit_literal_string_single_quoted(self, node: _Node, _c: _Children) -> _expression.String:
+        self._line_breaks_within_line += node.text.count("\n")
         return _parse_string_literal(node.text)
 
     def visit_literal_string_double_quoted(self, node: _Node, _c: _Children) -> _expression.String:
+        self._line_breaks_within_line += node.text.count("\n")
         return _parse_string_literal(node.text)
 
 
